@@ -58,6 +58,9 @@ def make_cases(rng, _n):
         if kind == "struct":
             add(decls, ty, value, sexp, "Other { z: 1 }", "wrong-type", False)
             add(decls, ty, value, sexp, "_ { %s: %s }" % (fields[0][0], lit[fields[0][1]]), "wildcard-without-rest", False)
+            add(decls, ty, value, sexp, "_ { %s: %s, }" % (fields[0][0], lit[fields[0][1]]), "wildcard-without-rest", False)
+            add(decls, ty, value, sexp, "_ { }", "wildcard-without-rest", False)
+            add(decls, ty, value, sexp, "_ { %s }" % ", ".join("%s: %s" % (f, lit[t]) for f, t in fields), "wildcard-without-rest", False)
             add(decls, ty, value, sexp, "_ { %s: %s, .. }" % (fields[0][0], lit[fields[0][1]]), "wildcard-with-rest", True)
             add(decls, ty, value, sexp, "_ { nonexistent: 1, .. }", "wildcard-unknown-field", False)
         else:
